@@ -84,3 +84,79 @@ func jsonEmittersQuoteAsJSON(p *Prog, r *Report, rule string, floor int) {
 		r.OK(rule, "json-emitters", "-", itoa(len(roots))+" MarshalJSON emitters and "+itoa(len(fns)-len(roots))+" byte-producing helpers take string escaping from encoding/json (no Go-style quoting)")
 	}
 }
+
+// R13.15 — a JSON decoder does not look for member names in the raw bytes. `"__extn"`, `"__extn"` and `"__extn"`
+// are the same key to encoding/json, which compares *decoded* names (and folds case); a decoder that first asks
+// bytes.Contains(b, `"__extn"`) — to skip a trial decode, say — answers differently for spellings of one document, and a
+// value changes its kind (decimal → record) depending on how its key was escaped. Any substring/prefix/index test of
+// input against a constant that contains a double quote, in what the module's UnmarshalJSON methods reach, is reported.
+func jsonDecodersCompareDecodedNames(p *Prog, r *Report, rule string, floor int) {
+	var roots []*ssa.Function
+	for _, fn := range p.Funcs {
+		if fn.Parent() != nil || testSupportPkgs[fnPkgPath(fn)] || len(fn.Blocks) == 0 {
+			continue
+		}
+		if n := fnBase(fn); strings.HasPrefix(strings.ToLower(n), "unmarshal") && strings.Contains(n, "JSON") {
+			roots = append(roots, fn)
+		}
+	}
+	if len(roots) < floor {
+		r.Anchor(rule, "JSON decoders (found "+itoa(len(roots))+", expected at least "+itoa(floor)+")")
+		return
+	}
+	test := map[string]bool{"Contains": true, "Index": true, "HasPrefix": true, "HasSuffix": true, "LastIndex": true, "Count": true, "Cut": true, "Equal": true, "EqualFold": true}
+	bad := 0
+	var fns []*ssa.Function
+	for f := range reachFrom(p, roots) {
+		fns = append(fns, withAnon(f)...)
+	}
+	sort.Slice(fns, func(i, j int) bool { return fns[i].String() < fns[j].String() })
+	seen := map[*ssa.Function]bool{}
+	for _, fn := range fns {
+		if seen[fn] {
+			continue
+		}
+		seen[fn] = true
+		for _, cl := range callsIn(fn) {
+			h := cl.Common().StaticCallee()
+			if h == nil || (fnPkgPath(h) != "bytes" && fnPkgPath(h) != "strings") || !test[h.Name()] {
+				continue
+			}
+			for _, a := range cl.Common().Args {
+				s, ok := constString(a)
+				if !ok {
+					if sl, isConv := a.(*ssa.Convert); isConv {
+						s, ok = constString(sl.X)
+					}
+				}
+				if !ok {
+					// a package-level variable initialised from a constant: var key = []byte(`"__extn"`)
+					if ld, isLd := a.(*ssa.UnOp); isLd {
+						if g, isG := ld.X.(*ssa.Global); isG && g.Pkg != nil {
+							if init := g.Pkg.Func("init"); init != nil {
+								forEachInstr(init, func(in ssa.Instruction) {
+									if st, isSt := in.(*ssa.Store); isSt && st.Addr == ssa.Value(g) {
+										v := st.Val
+										if cv, isCv := v.(*ssa.Convert); isCv {
+											v = cv.X
+										}
+										if t, isStr := constString(v); isStr {
+											s, ok = t, true
+										}
+									}
+								})
+							}
+						}
+					}
+				}
+				if ok && strings.Contains(s, "\"") && len(s) > 2 {
+					bad++
+					r.Viol(rule, fnQual(fn)+":raw-key-test", p.pos(cl.Pos()), fnShort(fn)+" tests the raw JSON input with "+fnPkgPath(h)+"."+h.Name()+" against the quoted text "+s+": JSON allows the same name to be written with \\uXXXX escapes (and encoding/json also folds case), so the test answers differently for spellings of one document and the value decodes to a different kind")
+				}
+			}
+		}
+	}
+	if bad == 0 {
+		r.OK(rule, "json-decoders", "-", itoa(len(roots))+" JSON decoders and "+itoa(len(seen))+" functions they reach never look for a quoted member name in the raw input")
+	}
+}
